@@ -1172,7 +1172,9 @@ class World(Engine):
                      'at setup, K in 1..4 client threads with operation lists (load from several source kinds, '
                      'dumps/dump/dumps_json/dump_json, function creation, plain-PyYAML probes, gc), a schedule '
                      'tape and faults attached to operations (callback exception, cancellation at the n-th '
-                     'yield point, read/write error). Each plan runs in a child forked from the pristine '
+                     'yield point, read/write error). Scenario plans: functions over subsets of one class set, '
+                     'twin creation of one function by two threads, long tight-loop histories, churn '
+                     '(create/use/drop/gc over two same-named class sets), two specs sharing a base class object. Each plan runs in a child forked from the pristine '
                      'worker; every finished operation is compared with the same operation in a fresh pristine '
                      'child in which only its own function exists. distinct_nontrivial counts distinct plans '
                      '(by digest of specs+setup+threads+tape) in which, for K>=2, at least two operations of '
